@@ -1,0 +1,513 @@
+//go:build verif
+
+package scheduler
+
+import (
+	"fmt"
+	"sort"
+
+	remoteexecution "github.com/bazelbuild/remote-apis/build/bazel/remote/execution/v2"
+	"github.com/buildbarn/bb-remote-execution/pkg/proto/remoteworker"
+	scheduler_invocation "github.com/buildbarn/bb-remote-execution/pkg/scheduler/invocation"
+)
+
+// Hooks for the external verification harness (/verif). This file only
+// exists when building with the "verif" build tag and only adds a
+// read-only walk over the scheduler's data structures; it does not
+// alter any behaviour.
+
+// VerifCounts holds the number of objects of every kind that the
+// scheduler currently retains.
+type VerifCounts struct {
+	Operations               int
+	Tasks                    int
+	TasksNotCompleted        int
+	Invocations              int // Non-root invocations.
+	BackgroundInvocations    int // Non-root invocations under the BackgroundLearning key.
+	Workers                  int
+	PlatformQueues           int
+	SizeClassQueues          int
+	RemovableSizeClassQueues int // Size class queues not created through RegisterPredeclaredPlatformQueue().
+	Cleanups                 int
+	InFlightDeduplication    int
+}
+
+// VerifOperation describes a single operation.
+type VerifOperation struct {
+	Name          string
+	InvocationIDs []string
+	Priority      int32
+	Queued        bool
+	Waiters       uint
+	HasCleanup    bool
+}
+
+// VerifTask describes a single task.
+type VerifTask struct {
+	ActionDigest    string
+	DesiredState    *remoteworker.DesiredState_Executing // Shared with the scheduler; read-only.
+	Stage           remoteexecution.ExecutionStage_Value
+	ExecuteResponse *remoteexecution.ExecuteResponse
+	WorkerKey       string
+	QueueName       string // "instance name prefix|platform|size class"
+	Operations      []VerifOperation
+	HasLearner      bool
+	RetryCount      int
+	InDedupMap      bool
+}
+
+// VerifWorker describes a single worker.
+type VerifWorker struct {
+	Key             string
+	QueueName       string
+	CurrentTask     *VerifTask
+	Terminating     bool
+	Blocked         bool // Parked in Synchronize() waiting for work.
+	HasCleanup      bool
+	LastInvocation  []string
+	StickinessStart []int64 // UnixNano per level.
+}
+
+// VerifSnapshot is the result of VerifCheckInvariants.
+type VerifSnapshot struct {
+	Counts  VerifCounts
+	Tasks   []*VerifTask
+	Workers []*VerifWorker
+	// Violations of invariants that are literal transcriptions of
+	// "every task is held by exactly one queue or one worker".
+	Verdict []string
+	// Violations of invariants that describe how the code keeps its
+	// data structures (heap order, cached counters).
+	Diagnostic []string
+}
+
+func (scq *sizeClassQueue) verifName() string {
+	k := scq.getKey()
+	return fmt.Sprintf("%s|%s|%d", k.platformKey.GetInstanceNamePrefix().String(), k.platformKey.GetPlatformString(), k.sizeClass)
+}
+
+func verifInvocationIDs(i *invocation) []string {
+	ids := make([]string, 0, len(i.invocationKeys))
+	for _, k := range i.invocationKeys {
+		ids = append(ids, string(k))
+	}
+	return ids
+}
+
+// VerifCheckInvariants walks all data structures of the scheduler. The
+// second return value is false if the scheduler's lock could not be
+// acquired without blocking, which at quiescence means that some call
+// returned without releasing it.
+func (bq *InMemoryBuildQueue) VerifCheckInvariants() (*VerifSnapshot, bool) {
+	if !bq.lock.TryLock() {
+		return nil, false
+	}
+	defer bq.lock.Unlock()
+
+	s := &VerifSnapshot{}
+	verdict := func(format string, args ...any) {
+		if len(s.Verdict) < 50 {
+			s.Verdict = append(s.Verdict, fmt.Sprintf(format, args...))
+		}
+	}
+	diagnostic := func(format string, args ...any) {
+		if len(s.Diagnostic) < 50 {
+			s.Diagnostic = append(s.Diagnostic, fmt.Sprintf(format, args...))
+		}
+	}
+
+	s.Counts.Operations = len(bq.operationsNameMap)
+	s.Counts.PlatformQueues = len(bq.platformQueues)
+	s.Counts.SizeClassQueues = len(bq.sizeClassQueues)
+	s.Counts.Cleanups = len(bq.cleanupQueue.heap)
+	s.Counts.InFlightDeduplication = len(bq.inFlightDeduplicationMap)
+
+	// Platform queues, the trie and size class queues.
+	registeredSCQs := map[*sizeClassQueue]bool{}
+	for idx, pq := range bq.platformQueues {
+		if got := bq.platformQueuesTrie.GetExact(pq.platformKey); got != idx {
+			verdict("platform queue %q/%s is stored at index %d, but the trie maps it to %d", pq.platformKey.GetInstanceNamePrefix().String(), pq.platformKey.GetPlatformString(), idx, got)
+		}
+		if len(pq.sizeClasses) != len(pq.sizeClassQueues) || len(pq.sizeClasses) == 0 {
+			verdict("platform queue %d has %d size classes and %d size class queues", idx, len(pq.sizeClasses), len(pq.sizeClassQueues))
+			continue
+		}
+		for j, scq := range pq.sizeClassQueues {
+			if scq.sizeClass != pq.sizeClasses[j] || scq.platformQueue != pq {
+				verdict("size class queue %s is misfiled in its platform queue", scq.verifName())
+			}
+			if j > 0 && pq.sizeClasses[j-1] >= pq.sizeClasses[j] {
+				verdict("size classes of platform queue %d are not sorted", idx)
+			}
+			if bq.sizeClassQueues[scq.getKey()] != scq {
+				verdict("size class queue %s is not registered in the size class queue map", scq.verifName())
+			}
+			registeredSCQs[scq] = true
+		}
+	}
+	if len(registeredSCQs) != len(bq.sizeClassQueues) {
+		verdict("%d size class queues reachable through platform queues, but %d in the map", len(registeredSCQs), len(bq.sizeClassQueues))
+	}
+
+	// Cleanup heap.
+	for idx, e := range bq.cleanupQueue.heap {
+		if *e.key != cleanupKey(idx+1) {
+			verdict("cleanup entry %d has key %d", idx, *e.key)
+		}
+		if idx > 0 {
+			if parent := (idx - 1) / 2; bq.cleanupQueue.heap[idx].timestamp.Before(bq.cleanupQueue.heap[parent].timestamp) {
+				diagnostic("cleanup heap order violated at index %d", idx)
+			}
+		}
+	}
+
+	// Tasks, reachable through operations.
+	tasks := map[*task]*VerifTask{}
+	operationNames := make([]string, 0, len(bq.operationsNameMap))
+	for name := range bq.operationsNameMap {
+		operationNames = append(operationNames, name)
+	}
+	sort.Strings(operationNames)
+	for _, name := range operationNames {
+		o := bq.operationsNameMap[name]
+		t := o.task
+		if o.name != name {
+			verdict("operation %s is registered under name %s", o.name, name)
+		}
+		if t.operations[o.invocation] != o {
+			verdict("operation %s is not registered in its task under its invocation", name)
+		}
+		vt, ok := tasks[t]
+		if !ok {
+			vt = &VerifTask{
+				ActionDigest:    t.actionDigest.String(),
+				DesiredState:    &t.desiredState,
+				Stage:           t.getStage(),
+				ExecuteResponse: t.executeResponse,
+				HasLearner:      t.initialSizeClassLearner != nil,
+				RetryCount:      t.retryCount,
+			}
+			if len(t.operations) > 0 {
+				vt.QueueName = t.getCurrentSizeClassQueue().verifName()
+			}
+			if t.currentWorker != nil {
+				vt.WorkerKey = string(t.currentWorker.workerKey)
+			}
+			if bq.inFlightDeduplicationMap[t.actionDigest] == t {
+				vt.InDedupMap = true
+			}
+			tasks[t] = vt
+			s.Tasks = append(s.Tasks, vt)
+		}
+		vt.Operations = append(vt.Operations, VerifOperation{
+			Name:          name,
+			InvocationIDs: verifInvocationIDs(o.invocation),
+			Priority:      o.priority,
+			Queued:        o.queueIndex >= 0,
+			Waiters:       o.waiters,
+			HasCleanup:    o.cleanupKey.isActive(),
+		})
+		if o.waiters == 0 && !o.mayExistWithoutWaiters && !o.cleanupKey.isActive() {
+			verdict("operation %s has no waiters, but no removal is scheduled for it", name)
+		}
+	}
+	s.Counts.Tasks = len(tasks)
+
+	// Per-task invariants.
+	executingRecount := map[*invocation]map[*worker]int{}
+	for t, vt := range tasks {
+		if len(t.operations) != len(vt.Operations) {
+			verdict("task %s has %d operations, of which %d are registered by name", vt.ActionDigest, len(t.operations), len(vt.Operations))
+		}
+		var scq *sizeClassQueue
+		for i, o := range t.operations {
+			if scq == nil {
+				scq = i.sizeClassQueue
+			} else if scq != i.sizeClassQueue {
+				verdict("task %s has operations in multiple size class queues", vt.ActionDigest)
+			}
+			if o.invocation != i {
+				verdict("operation %s is filed under a different invocation than it refers to", o.name)
+			}
+			// The invocation must be reachable from the root.
+			cur := &i.sizeClassQueue.rootInvocation
+			for _, key := range i.invocationKeys {
+				next, ok := cur.children[key]
+				if !ok {
+					cur = nil
+					break
+				}
+				cur = next
+			}
+			if cur != i && t.getStage() != remoteexecution.ExecutionStage_COMPLETED {
+				verdict("operation %s of a task that is not completed belongs to an invocation that is no longer reachable", o.name)
+			}
+			switch t.getStage() {
+			case remoteexecution.ExecutionStage_QUEUED:
+				if o.queueIndex < 0 || o.queueIndex >= len(i.queuedOperations) || i.queuedOperations[o.queueIndex] != o {
+					verdict("operation %s of a queued task is not in the queue of its invocation", o.name)
+				}
+				if !registeredSCQs[i.sizeClassQueue] {
+					verdict("operation %s is queued in a size class queue that has been removed", o.name)
+				}
+			case remoteexecution.ExecutionStage_EXECUTING:
+				if o.queueIndex != -1 {
+					verdict("operation %s of an executing task is still in a queue", o.name)
+				}
+				for j := i; j != nil; j = j.parent {
+					if executingRecount[j] == nil {
+						executingRecount[j] = map[*worker]int{}
+					}
+					executingRecount[j][t.currentWorker]++
+				}
+			case remoteexecution.ExecutionStage_COMPLETED:
+				if o.queueIndex != -1 {
+					verdict("operation %s of a completed task is still in a queue", o.name)
+				}
+			}
+		}
+		switch t.getStage() {
+		case remoteexecution.ExecutionStage_QUEUED, remoteexecution.ExecutionStage_EXECUTING:
+			s.Counts.TasksNotCompleted++
+			if t.stageChangeWakeup == nil {
+				verdict("task %s is not completed, but has no wakeup channel", vt.ActionDigest)
+			}
+			if t.initialSizeClassLearner == nil {
+				verdict("task %s is not completed, but has no learner", vt.ActionDigest)
+			}
+			if t.desiredState.Action == nil {
+				verdict("task %s is not completed, but has no action", vt.ActionDigest)
+			} else if !t.desiredState.Action.DoNotCache && !vt.InDedupMap {
+				diagnostic("task %s is cacheable and not completed, but not in the in-flight deduplication map", vt.ActionDigest)
+			}
+		case remoteexecution.ExecutionStage_COMPLETED:
+			if t.initialSizeClassLearner != nil {
+				verdict("task %s is completed, but still has a learner", vt.ActionDigest)
+			}
+			if vt.InDedupMap {
+				verdict("task %s is completed, but still in the in-flight deduplication map", vt.ActionDigest)
+			}
+		}
+		if w := t.currentWorker; w != nil {
+			if w.currentTask != t {
+				verdict("task %s refers to worker %s, which does not refer back", vt.ActionDigest, w.workerKey)
+			}
+			if scq != nil && scq.workers[w.workerKey] != w {
+				verdict("task %s is assigned to worker %s, which is not a worker of the task's size class queue %s", vt.ActionDigest, w.workerKey, scq.verifName())
+			}
+		}
+	}
+	for d, t := range bq.inFlightDeduplicationMap {
+		if t.actionDigest != d {
+			verdict("in-flight deduplication map entry %s refers to a task with digest %s", d, t.actionDigest)
+		}
+		if _, ok := tasks[t]; !ok {
+			verdict("in-flight deduplication map entry %s refers to a task without registered operations", d)
+		}
+		if t.desiredState.Action != nil && t.desiredState.Action.DoNotCache {
+			verdict("in-flight deduplication map entry %s refers to a task with do_not_cache set", d)
+		}
+	}
+
+	// Workers and invocation trees.
+	idleRecount := map[*invocation]uint32{}
+	for scq := range registeredSCQs {
+		if scq.mayBeRemoved {
+			s.Counts.RemovableSizeClassQueues++
+			if len(scq.workers) == 0 && !scq.cleanupKey.isActive() {
+				verdict("size class queue %s has no workers and is removable, but no removal is scheduled", scq.verifName())
+			}
+		}
+		workerKeys := make([]string, 0, len(scq.workers))
+		for k := range scq.workers {
+			workerKeys = append(workerKeys, string(k))
+		}
+		sort.Strings(workerKeys)
+		for _, k := range workerKeys {
+			w := scq.workers[workerKey(k)]
+			s.Counts.Workers++
+			vw := &VerifWorker{
+				Key:         k,
+				QueueName:   scq.verifName(),
+				Terminating: w.terminating,
+				Blocked:     w.wakeup != nil,
+				HasCleanup:  w.cleanupKey.isActive(),
+			}
+			for _, st := range w.stickinessStartingTimes {
+				vw.StickinessStart = append(vw.StickinessStart, st.UnixNano())
+			}
+			if w.workerKey != workerKey(k) {
+				verdict("worker %s is registered under key %s", w.workerKey, k)
+			}
+			if t := w.currentTask; t != nil {
+				vt, ok := tasks[t]
+				if !ok {
+					verdict("worker %s is assigned a task that has no registered operations", k)
+				} else {
+					vw.CurrentTask = vt
+				}
+				if t.currentWorker != w {
+					verdict("worker %s refers to a task that refers to another worker", k)
+				}
+				if t.getStage() != remoteexecution.ExecutionStage_EXECUTING {
+					verdict("worker %s is assigned a task that is not in the executing stage", k)
+				}
+				if w.lastInvocation != nil {
+					verdict("worker %s is executing, but still has a last invocation", k)
+				}
+				if w.wakeup != nil {
+					verdict("worker %s is executing, but is also queued for work", k)
+				}
+			} else {
+				if w.lastInvocation == nil {
+					verdict("worker %s is idle, but has no last invocation", k)
+				} else {
+					vw.LastInvocation = verifInvocationIDs(w.lastInvocation)
+					if w.lastInvocation.sizeClassQueue != scq {
+						verdict("worker %s has a last invocation in another size class queue", k)
+					}
+					for i := w.lastInvocation; i != nil; i = i.parent {
+						idleRecount[i]++
+					}
+					if w.wakeup != nil {
+						l := w.lastInvocation.idleSynchronizingWorkers
+						if w.listIndex < 0 || w.listIndex >= len(l) || l[w.listIndex].worker != w {
+							verdict("worker %s is waiting for work, but is not in the list of its last invocation", k)
+						}
+					} else if w.listIndex != -1 {
+						verdict("worker %s is not waiting for work, but has list index %d", k, w.listIndex)
+					}
+				}
+			}
+			s.Workers = append(s.Workers, vw)
+		}
+
+		var walk func(i *invocation, depth int)
+		walk = func(i *invocation, depth int) {
+			if i.sizeClassQueue != scq {
+				verdict("invocation %v is filed in another size class queue", verifInvocationIDs(i))
+			}
+			if i.parent != nil {
+				s.Counts.Invocations++
+				if i.invocationKeys[0] == scheduler_invocation.BackgroundLearningKeys[0] {
+					s.Counts.BackgroundInvocations++
+				}
+				if !i.isActive() && i.idleWorkersCount == 0 {
+					verdict("invocation %v in %s has no queued or executing operations and no workers, but was not removed", verifInvocationIDs(i), scq.verifName())
+				}
+			}
+			// Queued operations heap.
+			for idx, o := range i.queuedOperations {
+				if o.queueIndex != idx {
+					verdict("queued operation %s has index %d, but is stored at %d", o.name, o.queueIndex, idx)
+				}
+				if o.invocation != i {
+					verdict("queued operation %s is stored in another invocation's queue", o.name)
+				}
+				if bq.operationsNameMap[o.name] != o {
+					verdict("queued operation %s is not registered by name", o.name)
+				}
+				if o.task.getStage() != remoteexecution.ExecutionStage_QUEUED {
+					verdict("operation %s is in a queue, but its task is not in the queued stage", o.name)
+				}
+				if idx > 0 && i.queuedOperations.Less(idx, (idx-1)/2) {
+					diagnostic("queued operations heap order violated in invocation %v at index %d", verifInvocationIDs(i), idx)
+				}
+			}
+			// Queued children heap.
+			inQueuedChildren := map[*invocation]bool{}
+			for idx, c := range i.queuedChildren {
+				inQueuedChildren[c] = true
+				if c.queuedChildrenIndex != idx {
+					verdict("queued child invocation %v has index %d, but is stored at %d", verifInvocationIDs(c), c.queuedChildrenIndex, idx)
+				}
+				if c.parent != i || (len(c.invocationKeys) > 0 && i.children[c.invocationKeys[len(c.invocationKeys)-1]] != c) {
+					verdict("queued child invocation %v is not a child of the invocation whose heap it is in", verifInvocationIDs(c))
+				}
+				if !c.isQueued() {
+					verdict("invocation %v is in the heap of queued children, but has nothing queued", verifInvocationIDs(c))
+				}
+				if idx > 0 && i.queuedChildren.Less(idx, (idx-1)/2) {
+					diagnostic("queued children heap order violated in invocation %v at index %d", verifInvocationIDs(i), idx)
+				}
+			}
+			inIdleChildren := map[*invocation]bool{}
+			for idx, c := range i.idleSynchronizingWorkersChildren {
+				inIdleChildren[c] = true
+				if c.idleSynchronizingWorkersChildrenIndex != idx {
+					verdict("idle child invocation %v has index %d, but is stored at %d", verifInvocationIDs(c), c.idleSynchronizingWorkersChildrenIndex, idx)
+				}
+				if c.parent != i {
+					verdict("idle child invocation %v is in the heap of another invocation", verifInvocationIDs(c))
+				}
+				if idx > 0 && i.idleSynchronizingWorkersChildren.Less(idx, (idx-1)/2) {
+					diagnostic("idle synchronizing workers children heap order violated in invocation %v at index %d", verifInvocationIDs(i), idx)
+				}
+			}
+			for idx, e := range i.idleSynchronizingWorkers {
+				if e.worker.wakeup == nil || e.worker.lastInvocation != i || e.worker.listIndex != idx {
+					verdict("idle synchronizing workers list of invocation %v is inconsistent at index %d", verifInvocationIDs(i), idx)
+				}
+				if scq.workers[e.worker.workerKey] != e.worker {
+					verdict("idle synchronizing workers list of invocation %v contains an unregistered worker", verifInvocationIDs(i))
+				}
+			}
+			// Executing workers.
+			want := executingRecount[i]
+			if len(want) != len(i.executingWorkers) {
+				diagnostic("invocation %v in %s records %d executing workers, recount gives %d", verifInvocationIDs(i), scq.verifName(), len(i.executingWorkers), len(want))
+			}
+			for w, n := range i.executingWorkers {
+				if want[w] != n {
+					diagnostic("invocation %v in %s records %d executing operations for worker %s, recount gives %d", verifInvocationIDs(i), scq.verifName(), n, w.workerKey, want[w])
+				}
+			}
+			if idleRecount[i] != i.idleWorkersCount {
+				diagnostic("invocation %v in %s records %d idle workers, recount gives %d", verifInvocationIDs(i), scq.verifName(), i.idleWorkersCount, idleRecount[i])
+			}
+			if i.isQueued() {
+				wantPriority := int32(0)
+				if i.queuedOperations.Len() > 0 {
+					wantPriority = i.queuedOperations[0].priority
+				} else {
+					wantPriority = i.queuedChildren[0].firstQueuedOperationPriority
+				}
+				if i.parent != nil && i.firstQueuedOperationPriority != wantPriority {
+					diagnostic("invocation %v caches first queued operation priority %d, actual %d", verifInvocationIDs(i), i.firstQueuedOperationPriority, wantPriority)
+				}
+			}
+			keys := make([]string, 0, len(i.children))
+			for k := range i.children {
+				keys = append(keys, string(k))
+			}
+			sort.Strings(keys)
+			for _, k := range keys {
+				c := i.children[scheduler_invocation.Key(k)]
+				if c.parent != i {
+					verdict("invocation %v has a child that refers to another parent", verifInvocationIDs(i))
+				}
+				if len(c.invocationKeys) != depth+1 || string(c.invocationKeys[depth]) != k {
+					verdict("child invocation %v is registered under key %s", verifInvocationIDs(c), k)
+				}
+				if c.isQueued() != inQueuedChildren[c] {
+					verdict("child invocation %v: has queued operations = %v, is in parent's heap of queued children = %v", verifInvocationIDs(c), c.isQueued(), inQueuedChildren[c])
+				}
+				if !inQueuedChildren[c] && c.queuedChildrenIndex != -1 {
+					verdict("child invocation %v is not in the heap of queued children, but has index %d", verifInvocationIDs(c), c.queuedChildrenIndex)
+				}
+				hasIdle := len(c.idleSynchronizingWorkers)+c.idleSynchronizingWorkersChildren.Len() > 0
+				if hasIdle != inIdleChildren[c] {
+					verdict("child invocation %v: has idle synchronizing workers = %v, is in parent's heap = %v", verifInvocationIDs(c), hasIdle, inIdleChildren[c])
+				}
+				if !inIdleChildren[c] && c.idleSynchronizingWorkersChildrenIndex != -1 {
+					verdict("child invocation %v is not in the heap of idle children, but has index %d", verifInvocationIDs(c), c.idleSynchronizingWorkersChildrenIndex)
+				}
+				walk(c, depth+1)
+			}
+		}
+		walk(&scq.rootInvocation, 0)
+	}
+
+	sort.Slice(s.Tasks, func(i, j int) bool { return s.Tasks[i].Operations[0].Name < s.Tasks[j].Operations[0].Name })
+	return s, true
+}
